@@ -802,6 +802,11 @@ class Unit:
         for e in body_edits:
             e(body)
         # --- splices ---
+        n_loops = len(body.loops())
+        if n_loops > len(loops or {}):
+            # a loop the unit has no invariant for (e.g. introduced by an edit of /repo): a failing obligation of this
+            # function may just be the missing invariant -> undecided, never an alarm
+            body.lost.append('loop without a registered invariant (%d loops, %d specs)' % (n_loops, len(loops or {})))
         for k, spec in (closures or {}).items():
             _closure_contract(body, k, spec)
         for k, spec in sorted((loops or {}).items(), reverse=True):
